@@ -1,17 +1,31 @@
 #!/usr/bin/env python3
-"""Markdown table of the seeded changes and the checks that catch them (from seeded/*/meta.json, matrix.json)."""
+"""Markdown table of the seeded changes and the checks that catch them (from seeded/*/meta.json, matrix.json, robust.json)."""
 import glob, json, os
-rows = []
+rows, retired = [], []
 for d in sorted(glob.glob(os.path.join(os.path.dirname(os.path.dirname(os.path.abspath(__file__))), "seeded", "*"))):
     sid = os.path.basename(d)
     m = json.load(open(d + "/meta.json"))
+    if m.get("retired"):
+        retired.append((sid, m["retired"]))
+        continue
     mx = json.load(open(d + "/matrix.json")) if os.path.exists(d + "/matrix.json") else {}
     caught = [c for c, i in mx.items() if i["exit"] == 1]
     with_input = [c for c, i in mx.items() if i["exit"] == 1 and i["violation_lines"] > i["no_failing_input"]]
     only_corr = [c for c in caught if c not in with_input]
     infra = [c for c, i in mx.items() if i["exit"] == 2]
+    rb = json.load(open(d + "/robust.json")) if os.path.exists(d + "/robust.json") else {}
+    cell = []
+    if rb and "seeds" not in rb:
+        for c, seeds in rb.items():
+            k = sum(1 for i in seeds.values() if i["exit"] == 1 and i["violation_lines"] > i["no_failing_input"])
+            cell.append("%s %d/%d" % (c, k, len(seeds)))
     s = m.get("summary", "").replace("|", "/")
-    rows.append("| %s | %s | %s | %s | %s |" % (sid, s[:230] + ("…" if len(s) > 230 else ""), ", ".join(with_input) or "—", ", ".join(only_corr) or "—", ", ".join(infra) or ""))
-print("| seeded change | what it does | caught with a concrete failing input by | caught as `no-failing-input-found` by | exit 2 |")
+    rows.append("| %s | %s | %s | %s | %s |%s" % (sid, s[:200] + ("…" if len(s) > 200 else ""), ", ".join(with_input) or "—", ", ".join(only_corr) or "—",
+                                                   ", ".join(cell) or "—", (" exit 2: " + ", ".join(infra)) if infra else ""))
+print("| seeded change | what it does | caught with a concrete failing input by (seed 0, all 19 checks) | caught as `no-failing-input-found` by | with a failing input under seeds 1-3 (own check and seed-0 catchers) |")
 print("|---|---|---|---|---|")
 print("\n".join(rows))
+if retired:
+    print()
+    for sid, why in retired:
+        print("* %s — retired: %s" % (sid, why))
